@@ -55,6 +55,22 @@ def set_history(app, variant=0):
     return AppHistory(app, names, base, evolutions)
 
 
+def rename_index_history(app):
+    """Item(name, g): the model is renamed to a new table, and only then indexes are
+    added on the renamed table by operations that are not part of a table rebuild (they
+    consult the tracked database state, which the preview computes on a clone)."""
+    names = Names(models={'A': 'Item', 'B': 'Tag', 'C': 'Zed'},
+                  fields={'id': 'id', 'f': 'name', 'g': 'g', 'f1': 'f1', 't': 'title'}, app=app)
+    base = {'A': model('A', {'f': fld('Char', max_length=20), 'g': fld('Int', null=True)})}
+    evolutions = [
+        {'label': 'e1', 'mutations': [mu(k='Add', m='A', f='f1', ftype='Int', attrs={'null': True}, init=NONE)]},
+        {'label': 'e2', 'mutations': [mu(k='RenM', m='A', om='A', nm='C', dbtable='t_C')]},
+        {'label': 'e3', 'mutations': [mu(k='Chg', m='C', f='g', attrs={'db_index': True})]},
+        {'label': 'e4', 'mutations': [mu(k='Meta', m='C', prop='unique_together', val=[['f', 'f1']])]},
+    ]
+    return AppHistory(app, names, base, evolutions)
+
+
 # ---------------------------------------------------------------------------
 # the documented substitution rule (utils/sql.py run_sql(capture=True),
 # db/common.py quote_sql_param), restated independently
@@ -115,9 +131,18 @@ def scenarios(tier):
                     continue
                 out.append(('set%d:%d->%d' % (variant, i, v), {'a1': h}, {'a1': i},
                             {'a1': v}, PALETTES[(i + v) % 2]))
+    h = rename_index_history('shop')
+    for i in range(0, 4):
+        for v in range(max(i + 1, 3), 5):
+            out.append(('renidx:%d->%d' % (i, v), {'a1': h}, {'a1': i}, {'a1': v}, PALETTES[0]))
     maxver = 3 if tier == 'quick' else 4
-    for variant in ((0, 1) if tier == 'quick' else (0, 1, 2)):
-        hs = make_histories(maxver, variant=variant, groups=True)
+    for variant in ((0, 1, 'rename') if tier == 'quick' else (0, 1, 2, 'rename')):
+        if variant == 'rename':
+            # app a2 renames its model to a new table and then changes an index on it
+            hs = make_histories(maxver, variant=0, groups=True, a2_variant=3)
+            variant = 3
+        else:
+            hs = make_histories(maxver, variant=variant, groups=True)
         for i1 in range(0, maxver):
             for i2 in range(0, maxver + 1):
                 if tier == 'quick' and (i1 + i2 + variant) % 2:
